@@ -24,6 +24,7 @@ TRUSTED = [
     "the abstraction of a script to its top-level items (declaration / use / other statement) is built by the harness together with the script",
     "mock core + host g++: what a peripheral does once configured is the mock's",
     "pin-level tie (W4): the projection of a mock-core trace line to the alphabet of AssemblePins.Ev (pm / dw,aw,tone -> write / dr,ar,pulsein -> read / servo.attach / servo.write / lcd.init,begin / serial.begin), and the pins each generated constructor call names, are the harness's",
+    "W10: an animation start is recognised in the trace as the print of the marker text, a tick as the millis() read of the tick helper attributed to the display of the next lcd.* line (scroll, speed_ms=0, loop=True); the mode of a Button is set on the parsed AST node (ButtonDecl.mode), no script syntax reaches it; one tick event per started animation, not per display",
     "pin-level theorems are about Lang/AssemblePins.run; they reach the emitter only through that tie (random device sets + hand-written re-binding shapes), for the one command per device kind the tie uses",
 ]
 HEAD = ("from Reduino.Actuators import Led, RGBLed, Servo, DCMotor, Buzzer\nfrom Reduino.Sensors import Button, Potentiometer, Ultrasonic\nfrom Reduino.Displays import LCD\n"
@@ -279,19 +280,21 @@ def pin_items(items):
     return " ".join(out)
 
 
-def pin_trace(trace, items_s, items_l):
-    """mock-core trace -> the alphabet of AssemblePins.Ev (pm / at / sb / li / w / r / sw / lw / s / p), `|` between phases"""
+def pin_trace(trace, items_s, items_l, ticks=False):
+    """mock-core trace -> the alphabet of AssemblePins.Ev (pm / at / sb / li / w / r / sw / lw / s / p / as / tk), `|` between phases.
+    W10: an animation start is the print of exactly ANIM_TEXT (a scroll FRAME is padded to the display width), a tick is the `millis` read
+    of __redu_lcd_tick_<style> and belongs to the display of the next lcd.* line (speed_ms=0, loop=True: every tick draws a frame)"""
     buttons, lcds = {}, []
     for w in (items_s + " " + items_l).split():
         f = w.split(":")
-        if f[0] == "d" and f[1] == "button":
+        if f[0] == "d" and f[1] in ("button", "buttonin"):
             buttons.setdefault(int(f[3]), f[2])
         if f[0] == "d" and f[1] == "lcd" and f[2] not in lcds:
             lcds.append(f[2])           # display objects are constructed in order of first declaration
     lcd = lambda i: lcds[int(i)] if int(i) < len(lcds) else "?"
     servo_pin = {}
     seq, in_loop = [], False
-    for l in trace:
+    for idx, l in enumerate(trace):
         w = l.split(" ")
         k = w[0]
         if l.startswith("== loop"):
@@ -299,6 +302,11 @@ def pin_trace(trace, items_s, items_l):
             seq.append("|")
         elif l.startswith("=="):
             continue
+        elif k == "millis" and ticks:      # only in the W10 family (no Ultrasonic there: its helper reads millis too)
+            nxt = next((x.split(" ") for x in trace[idx + 1:] if x.startswith(("lcd.", "millis", "==", "delay", "dr "))), ["?"])
+            seq.append("tk:" + (lcd(nxt[1]) if nxt[0].startswith("lcd.") else "?"))
+        elif k == "lcd.print" and w[4] == ANIM_HEX:
+            seq.append("as:" + lcd(w[1]))
         elif k == "pm":
             seq.append(f"pm:{w[1]}:{w[2]}")
         elif k in ("dw", "aw", "tone", "notone"):
@@ -326,6 +334,95 @@ def pin_trace(trace, items_s, items_l):
 
 
 IMPORTS = HEAD
+ANIM_TEXT = "sc"
+ANIM_HEX = "x" + ANIM_TEXT.encode().hex()
+
+
+def anim_line(name, row):
+    return f"{name}.animate(\"scroll\", {row}, \"{ANIM_TEXT}\", speed_ms=0, loop=True)"
+
+
+def transpile_modes(src, modes):
+    """emit(parse(src)) with ButtonDecl.mode set from `modes` (name -> "INPUT"): the mode of a Button is a field of the AST node that
+    no script syntax reaches (the parser never sets it; `Button(4, mode="INPUT")` is accepted and the keyword ignored), so the tie
+    sets it on the parsed program"""
+    import importlib
+    parser = importlib.import_module("Reduino.transpile.parser")
+    emitter = importlib.import_module("Reduino.transpile.emitter")
+    ast_mod = importlib.import_module("Reduino.transpile.ast")
+    try:
+        prog = parser.parse(src)
+        for node in list(prog.setup_body) + list(prog.loop_body):
+            if isinstance(node, ast_mod.ButtonDecl) and node.name in modes:
+                node.mode = modes[node.name]
+        return emitter.emit(prog), None
+    except Exception as e:  # noqa: BLE001
+        return None, e
+
+
+def gen_hk(rng):
+    """W10: displays (I2C / parallel), some animated before the loop, some inside it, some twice; Buttons in both modes, before the
+    loop or at the top of its body; names whose sorted order differs from their declaration order"""
+    lnames = rng.sample(["lz", "la", "lm"], rng.randint(1, 3))
+    bnames = rng.sample(["bz", "ba", "bm", "k"], rng.randint(0, 3))
+    bpins = rng.sample([8, 9, 10, 11, 12, 13], len(bnames))
+    addrs = [39, 38, 37]
+    pro, body, it_s, it_l, modes = [], [], [], [], {}
+    par_used = False
+    for i, n in enumerate(lnames):
+        if not par_used and rng.random() < 0.3:
+            par_used = True
+            pro.append(f"{n} = LCD(rs=2, en=3, d4=4, d5=5, d6=6, d7=7)")
+            it_s.append(f"d:lcd:{n}:2,3,4,5,6,7")
+        else:
+            pro.append(f"{n} = LCD(i2c_addr={addrs[i]}, cols=16, rows=2)")
+            it_s.append(f"d:lcd:{n}:")
+    tag = [100]
+
+    def stmt(lines, items):
+        tag[0] += 1
+        lines.append(f"sleep({tag[0]})")
+        items.append(f"s:{tag[0]}")
+    for n, p in zip(bnames, bpins):
+        kind = "button"
+        if rng.random() < 0.5:
+            kind, modes[n] = "buttonin", "INPUT"
+        (lines, items) = (body, it_l) if rng.random() < 0.3 else (pro, it_s)
+        lines.append(f"{n} = Button({p})")
+        items.append(f"d:{kind}:{n}:{p}")
+    for n in lnames:
+        rows = [0, 1]
+        for _ in range(rng.choice([0, 1, 1, 2])):
+            pro.append(anim_line(n, rows.pop(0)))
+            it_s.append(f"a:{n}")
+            if rng.random() < 0.4:
+                stmt(pro, it_s)
+        if rng.random() < 0.4:
+            pro.append(f"{n}.line(0, \"x\")")
+            it_s.append(f"u:{n}")
+    for n in lnames:
+        if rng.random() < 0.35:
+            body.append(anim_line(n, 1))
+            it_l.append(f"a:{n}")
+        if rng.random() < 0.4:
+            body.append(f"{n}.line(0, \"x\")")
+            it_l.append(f"u:{n}")
+    stmt(body, it_l)
+    return pro, body, " ".join(it_s), " ".join(it_l), modes
+
+
+# W10 pinned: (prologue, loop body, setup items, loop items, Button modes)
+HK_EXTRAS = [
+    # two displays, one animated before the loop and one inside it (never ticked, K18a), two Buttons in different modes
+    (["l2 = LCD(i2c_addr=39, cols=16, rows=2)", "l1 = LCD(rs=2, en=3, d4=4, d5=5, d6=6, d7=7)", "b = Button(8)", "a = Button(9)", anim_line("l2", 0), "l1.line(0, \"x\")"],
+     [anim_line("l1", 0), "sleep(102)"],
+     "d:lcd:l2: d:lcd:l1:2,3,4,5,6,7 d:button:b:8 d:buttonin:a:9 a:l2 u:l1", "a:l1 s:102", {"a": "INPUT"}),
+    # two animations on one display: two ticks; displays ticked in name order, after the polls
+    (["lz = LCD(i2c_addr=39, cols=16, rows=2)", "la = LCD(i2c_addr=38, cols=16, rows=2)", anim_line("lz", 0), anim_line("lz", 1), anim_line("la", 0), "k = Button(8)"],
+     ["sleep(102)"], "d:lcd:lz: d:lcd:la: a:lz a:lz a:la d:buttonin:k:8", "s:102", {"k": "INPUT"}),
+    # a Button with mode INPUT at the top of the loop body; the same name and pin before the loop
+    (["b = Button(8)"], ["b = Button(8)", "sleep(102)"], "d:buttonin:b:8", "d:buttonin:b:8 s:102", {"b": "INPUT"}),
+]
 # hand-written re-binding shapes the generator does not produce: (prologue lines, loop lines, setup items, loop items)
 PIN_EXTRAS = [
     # a Led bound twice before the loop: each use drives the pin of the binding in force
@@ -383,6 +480,34 @@ def pins_tie(ctx, cases, srcs, passes, outs, results):
         replay = {"script": src, "passes": n, "tie": "pins"}
         ctx.count("pins:generated")
         impl = pin_trace(res.trace, pin_items(items_s), pin_items(items_l))
+        if impl != m:
+            ctx.tie_diff("tie pin-level assembly (AssemblePins.run vs compiled sketch)", replay, m, impl)
+    # W10: housekeeping shapes (animations, Button modes): pinned + generated
+    import random
+    rng_h = random.Random(f"{ctx.seed}:C05:w10")          # own PRNG: the first tie's cases are unchanged
+    hk = list(HK_EXTRAS) + [gen_hk(rng_h) for _ in range(ctx.n(40, 400))]
+    hsrcs = [IMPORTS + "\n".join(pro) + "\nwhile True:\n" + "\n".join("    " + x for x in body) + "\n" for pro, body, _, _, _ in hk]
+    houts = [transpile_modes(src, h[4]) for src, h in zip(hsrcs, hk)]
+    hpass = [2 if i < len(HK_EXTRAS) else rng_h.choice([0, 1, 2, 3]) for i in range(len(hk))]
+    hres = iter(cxx.run_many(ctx, [(cpp, n, "") for (cpp, _), n in zip(houts, hpass) if cpp is not None]))
+    hmodel = ctx.lean.drive([f"pins|{n}|{s}|{l}" for (_, _, s, l, _), n in zip(hk, hpass)])
+    for (pro, body, s, l, modes), src, (cpp, exc), n, m in zip(hk, hsrcs, houts, hpass, hmodel):
+        replay = {"script": src, "passes": n, "tie": "pins", "button_modes": modes}
+        ctx.count("pins:housekeeping-shape")
+        if " a:" in " " + s:
+            ctx.count("pins:animated-before-loop")
+        if modes:
+            ctx.count("pins:button-mode-input")
+        ctx.case(src + repr(sorted(modes)), nontrivial=True)
+        if cpp is None:
+            ctx.tie_diff("tie pin-level assembly (script rejected by the transpiler)", replay, m[:80], repr(exc))
+            continue
+        res = next(hres)
+        if res.compile_error or not res.ok:
+            ctx.fail("split:compile", f"sketch does not compile/run: {(res.compile_error or res.stderr)[:300]}", replay)
+            continue
+        ctx.cov["traces_validated_against_impl"] += 1
+        impl = pin_trace(res.trace, s, l, ticks=True)
         if impl != m:
             ctx.tie_diff("tie pin-level assembly (AssemblePins.run vs compiled sketch)", replay, m, impl)
     # hand-written re-binding shapes
